@@ -17,7 +17,7 @@ import (
 )
 
 type qOp struct {
-	Op    string `json:"op"`            // add read readinflight remove lateremove replace init close tick
+	Op    string `json:"op"`            // add read readinflight remove lateremove earlyremove replace init close tick
 	QoS   byte   `json:"qos,omitempty"` // add
 	Exp   string `json:"exp,omitempty"` // add: none|past|future
 	Big   bool   `json:"big,omitempty"` // add: larger than the read limit
@@ -86,8 +86,10 @@ func genQOps(t *rapid.T, maxOps int) []qOp {
 		case k <= 12:
 			ops = append(ops, qOp{Op: "read", N: rapid.IntRange(1, 4).Draw(t, "n")})
 		case k <= 14:
-			if rapid.IntRange(0, 3).Draw(t, "late") == 0 {
+			if l := rapid.IntRange(0, 4).Draw(t, "late"); l == 0 {
 				ops = append(ops, qOp{Op: "lateremove", K: rapid.IntRange(0, 3).Draw(t, "k")})
+			} else if l == 1 {
+				ops = append(ops, qOp{Op: "earlyremove", K: rapid.IntRange(0, 3).Draw(t, "k")})
 			} else {
 				ops = append(ops, qOp{Op: "remove", K: rapid.IntRange(0, 3).Draw(t, "k")})
 			}
@@ -98,8 +100,12 @@ func genQOps(t *rapid.T, maxOps int) []qOp {
 		case k == 17:
 			ops = append(ops, qOp{Op: "close"})
 		default:
-			ops = append(ops, qOp{Op: "init", Clean: rapid.IntRange(0, 5).Draw(t, "clean") == 0},
-				qOp{Op: "readinflight", N: rapid.IntRange(1, 3).Draw(t, "n")})
+			ops = append(ops, qOp{Op: "init", Clean: rapid.IntRange(0, 5).Draw(t, "clean") == 0})
+			// sometimes an acknowledgement arrives before the first replay batch, or between two batches
+			if rapid.IntRange(0, 3).Draw(t, "early") == 0 {
+				ops = append(ops, qOp{Op: "earlyremove", K: rapid.IntRange(0, 3).Draw(t, "k")})
+			}
+			ops = append(ops, qOp{Op: "readinflight", N: rapid.IntRange(1, 3).Draw(t, "n")})
 		}
 	}
 	return ops
@@ -519,6 +525,28 @@ func runQueue(f queueFactory, s c10Scen, c *ev.Case) (viol *ev.Violation) {
 				x.pubrel, x.relReplayed = true, false
 				c.Label("replace")
 			}
+		case "earlyremove":
+			// after a resume (non-clean Init) the client acknowledges an in-flight message BEFORE the store has handed it
+			// out again (the PUBACK overtakes the replay): both backends ignore it, the entry is replayed as usual
+			var cand []*qEntry
+			for _, x := range m.inflight() {
+				if !x.sent {
+					cand = append(cand, x)
+				}
+			}
+			if !m.open || len(cand) == 0 {
+				c.Count("skipped_ops", 1)
+				continue
+			}
+			x := cand[op.K%len(cand)]
+			c.Logf("step %d: early remove id=%d (not replayed yet) | model %s", i, x.id, m.String())
+			if err := st.Remove(x.id); err != nil {
+				return ev.Violf("C10.remove-error", "Remove of an in-flight id that has not been replayed yet returned %v", err)
+			}
+			if len(notifier.drops) != 0 {
+				return ev.Violf("C10.early-remove", "Remove of id %d (in flight, not replayed since the resume) reported drops %v", x.id, notifier.drops)
+			}
+			c.Label("early_remove_before_replay")
 		case "lateremove":
 			// the client acknowledges a message the store has already given up on (dropped as expired in flight):
 			// nothing is there to remove, nothing may change
